@@ -30,6 +30,9 @@ class SinkReader:
             return sink
         else:
             sink_data = np.atleast_2d(np.loadtxt(sink_file, delimiter=",", skiprows=2))
+            if sink_data.size == 0:
+                # Only the header lines: no sink has formed yet
+                return sink
 
         with open(sink_file, "r") as f:
             key_list = f.readline()
